@@ -100,6 +100,7 @@ def power_loss_image(d, snap):
 def one(name, mode, n, powerloss=False, payload=False):
     d, snap = _dirs()
     try:
+        payload = payload or mode == 'fault'
         cmd = [common.PY, os.path.join(common.VERIF, 'harness', 'sweep_child.py'), name, d, mode, str(n), snap] + (['payload'] if payload else [])
         r = subprocess.run(cmd, capture_output=True, text=True, env=common.child_env(), timeout=600)
         out = None
@@ -129,6 +130,12 @@ def one(name, mode, n, powerloss=False, payload=False):
                     res[k] = out[k]
             if mode != 'kill':
                 res['log'] = out['log']
+            if mode == 'fault' and os.path.exists(os.path.join(snap, 'pre_raw.json')) and os.path.exists(os.path.join(snap, 'post_raw.json')):
+                with open(os.path.join(snap, 'pre_raw.json')) as f:
+                    pre = json.load(f)
+                with open(os.path.join(snap, 'post_raw.json')) as f:
+                    post = json.load(f)
+                res['trace_run'] = {'log': out['log'], 'pre': pre, 'post': post, 'truth': tr['truth'], 'targets': tr['targets'], 'result': out['result']}
         elif mode == 'kill' and os.path.exists(os.path.join(snap, 'log.json')):
             with open(os.path.join(snap, 'log.json')) as f:
                 lg = json.load(f)
@@ -164,6 +171,8 @@ def sweep(ck, pid, names, mode, powerloss=False, limit_per_scenario=None):
             points = sorted({points[int(i * step)] for i in range(limit_per_scenario)} | {1, T, T + 1})
         with ThreadPoolExecutor(common.NPROC) as ex:
             results = list(ex.map(lambda n: one(name, mode, n, powerloss=powerloss), points))
+        if mode == 'fault':
+            ck.fault_runs = getattr(ck, 'fault_runs', []) + [(name, r) for r in results if r.get('trace_run')]
         for res in results:
             total += 1
             ck.count((name, mode, res['n'], powerloss), nontrivial=True)
